@@ -60,8 +60,8 @@ theorem change_calls_iff (pre : Predef) (env : Env V) (n : Node J V) (hwf : Node
     have hv := handleChange_verdict pre env n hwf spec j
     cases hvd : changeVerdict pre env n spec j with
     | refuse cls => rw [hvd] at hv; simp only at hv; rw [hv] at h; cases h
-    | admitDo _ _ _ => rw [hvd] at hv; exact hv.elim
-    | admit m0 a0 hw v w0 =>
+    | allowDo _ _ _ => rw [hvd] at hv; exact hv.elim
+    | allow m0 a0 hw v w0 =>
       rw [hvd] at hv
       obtain ⟨mod, p, hmem, hname, hattr, hhw, ⟨m', a', ht, hlook⟩, hadm, heq⟩ := hv
       rw [heq, finishWrite_calls] at h
@@ -87,8 +87,8 @@ theorem change_calls_le_one (pre : Predef) (env : Env V) (n : Node J V) (hwf : N
   have hv := handleChange_verdict pre env n hwf spec j
   cases hvd : changeVerdict pre env n spec j with
   | refuse cls => rw [hvd] at hv; simp only at hv; rw [hv]; simp
-  | admitDo _ _ _ => rw [hvd] at hv; exact hv.elim
-  | admit m0 a0 hw v w0 =>
+  | allowDo _ _ _ => rw [hvd] at hv; exact hv.elim
+  | allow m0 a0 hw v w0 =>
     rw [hvd] at hv
     obtain ⟨mod, p, _, _, _, _, _, _, heq⟩ := hv
     rw [heq, finishWrite_calls]; split <;> simp
@@ -103,8 +103,8 @@ theorem rejected_is_inert (pre : Predef) (env : Env V) (n : Node J V) (hwf : Nod
   have hv := handleChange_verdict pre env n hwf spec j
   cases hvd : changeVerdict pre env n spec j with
   | refuse cls => rw [hvd] at hv; exact ⟨cls, rfl, hv⟩
-  | admitDo _ _ _ => rw [hvd] at hv; exact hv.elim
-  | admit m0 a0 hw v w0 =>
+  | allowDo _ _ _ => rw [hvd] at hv; exact hv.elim
+  | allow m0 a0 hw v w0 =>
     rw [hvd] at hv
     obtain ⟨mod, p, hmem, hname, hattr, hhw, ⟨m', a', ht, hlook⟩, hadm, heq⟩ := hv
     exfalso; apply h
@@ -245,8 +245,8 @@ theorem do_calls_iff (pre : Predef) (env : Env V) (n : Node J V) (hwf : Node.WF 
     have hv := handleDo_verdict pre env n hwf spec data
     cases hvd : doVerdict pre n spec data with
     | refuse cls => rw [hvd] at hv; simp only at hv; rw [hv] at h; cases h
-    | admit _ _ _ _ _ => rw [hvd] at hv; exact hv.elim
-    | admitDo m0 a0 arg0 =>
+    | allow _ _ _ _ _ => rw [hvd] at hv; exact hv.elim
+    | allowDo m0 a0 arg0 =>
       rw [hvd] at hv
       obtain ⟨mod, c, hmem, hname, hattr, ⟨m', a', ht, hlook⟩, hadm, heq⟩ := hv
       rw [heq, (finishDo_calls env n mod c arg0).1] at h
@@ -269,8 +269,8 @@ theorem do_rejected_is_inert (pre : Predef) (env : Env V) (n : Node J V) (hwf : 
   have hv := handleDo_verdict pre env n hwf spec data
   cases hvd : doVerdict pre n spec data with
   | refuse cls => rw [hvd] at hv; exact ⟨cls, rfl, hv⟩
-  | admit _ _ _ _ _ => rw [hvd] at hv; exact hv.elim
-  | admitDo m0 a0 arg0 =>
+  | allow _ _ _ _ _ => rw [hvd] at hv; exact hv.elim
+  | allowDo m0 a0 arg0 =>
     rw [hvd] at hv
     obtain ⟨mod, c, hmem, hname, hattr, ⟨m', a', ht, hlook⟩, hadm, heq⟩ := hv
     exfalso; apply h
@@ -288,8 +288,8 @@ theorem request_ok (pre : Predef) (env : Env V) (n : Node J V) (hwf : Node.WF pr
     simp only [RequestOK, step]
     cases hvd : changeVerdict pre env n spec j with
     | refuse cls => rw [hvd] at hv; simp only at hv; rw [hv]; exact ⟨rfl, rfl, rfl, rfl⟩
-    | admitDo _ _ _ => rw [hvd] at hv; exact hv.elim
-    | admit m0 a0 hw v w0 =>
+    | allowDo _ _ _ => rw [hvd] at hv; exact hv.elim
+    | allow m0 a0 hw v w0 =>
       rw [hvd] at hv
       obtain ⟨mod, p, _, hname, hattr, hhw, _, _, heq⟩ := hv
       simp only [ExchangeOK, obsOf]
@@ -299,8 +299,8 @@ theorem request_ok (pre : Predef) (env : Env V) (n : Node J V) (hwf : Node.WF pr
     simp only [RequestOK, step]
     cases hvd : doVerdict pre n spec data with
     | refuse cls => rw [hvd] at hv; simp only at hv; rw [hv]; exact ⟨rfl, rfl, rfl, rfl⟩
-    | admit _ _ _ _ _ => rw [hvd] at hv; exact hv.elim
-    | admitDo m0 a0 arg0 =>
+    | allow _ _ _ _ _ => rw [hvd] at hv; exact hv.elim
+    | allowDo m0 a0 arg0 =>
       rw [hvd] at hv
       obtain ⟨mod, c, _, hname, hattr, _, _, heq⟩ := hv
       simp only [ExchangeOK, obsOf]
@@ -339,5 +339,105 @@ theorem histories (pre : Predef) (n : Node J V) (hwf : Node.WF pre n) (h : List 
     obtain ⟨env, r⟩ := er
     have hstep := wf_step pre env n hwf r
     exact ⟨⟨request_ok pre env n hwf r, (ih _ hstep).1⟩, (ih _ hstep).2⟩
+
+
+/-! ### table facts (re-checked whenever the repository's table changes) -/
+
+/-- `PREDEFINED_ACCESSIBLES` has no duplicate name: the first-match look-up of the model is the dict look-up -/
+theorem predefined_nodup : (Frappy.Generated.C04.predefined.map (·.1)).Nodup := by decide +kernel
+
+/-- the classes the dispatcher raises carry eight different SECoP names -/
+theorem errorNames_nodup : (Frappy.Generated.C04.errorNames.map (·.2)).Nodup := by decide +kernel
+
+/-! ### non-vacuity: a concrete node (values and wire values are numbers) -/
+
+namespace Example
+
+def pre : Predef := [("value", .parameter), ("target", .parameter), ("stop", .command)]
+
+/-- accepts numbers up to 100, a number above is a RangeError -/
+def dt : DtOps Nat Nat where
+  accept := fun j _ => if j ≤ 100 then .ok j else .error ⟨.rangeError, "too big"⟩
+  revalidate := fun v => .ok v
+  convert := fun r => match r with | some v => .ok v | none => .error ⟨.wrongType, "None"⟩
+  exportV := fun v => v
+  datainfo := 0
+
+def target : Param Nat Nat :=
+  { attr := "target", exp := .auto, limitHead := none, readonly := false, constant := none, dt := dt,
+    entry := ⟨1, none⟩, checks := [.hook 1, .limits], hasRead := false, hasWrite := true, props := [] }
+def targetMax : Param Nat Nat :=
+  { attr := "target_max", exp := .auto, limitHead := some "target", readonly := false, constant := none, dt := dt,
+    entry := ⟨50, none⟩, checks := [], hasRead := false, hasWrite := false, props := [] }
+def ro : Param Nat Nat :=
+  { attr := "k", exp := .auto, limitHead := none, readonly := true, constant := some 7, dt := dt,
+    entry := ⟨7, none⟩, checks := [], hasRead := false, hasWrite := false, props := [] }
+def stop : Command Nat Nat := { attr := "stop", exp := .auto, arg := none, res := none, datainfo := 0, props := [] }
+def m : Module Nat Nat := { name := "m", exported := true, accs := [.param target, .param targetMax, .param ro, .command stop], props := [] }
+def node : Node Nat Nat := [m]
+
+def env : Env Nat where
+  drv := fun _ => .none
+  chk := fun _ _ _ v => if v = 13 then .raise ⟨.other "HardwareError", "unlucky"⟩ else .pass
+  le := fun a b => decide (a ≤ b)
+  lt := fun a b => decide (a < b)
+  split := fun v => (v, v)
+
+theorem wf : Node.WF pre node := by
+  refine ⟨by unfold namesNodup; decide +kernel, ?_, ?_, ?_, ?_⟩
+  · intro x hx; simp only [node, List.mem_singleton] at hx; subst hx; unfold Module.attrsNodup; decide +kernel
+  · intro x hx; simp only [node, List.mem_singleton] at hx; subst hx; unfold Module.wiresNodup; decide +kernel
+  · intro x hx; simp only [node, List.mem_singleton] at hx; subst hx
+    intro a ha k hk
+    simp only [m, List.mem_cons, List.not_mem_nil, or_false] at ha
+    rcases ha with rfl | rfl | rfl | rfl <;> revert hk <;> revert k <;> decide +kernel
+  · intro x hx; simp only [node, List.mem_singleton] at hx; subst hx
+    intro a ha p hp hc
+    simp only [m, List.mem_cons, List.not_mem_nil, or_false] at ha
+    rcases ha with rfl | rfl | rfl | rfl
+    · injection hp with hp; subst hp; simp [target] at hc
+    · injection hp with hp; subst hp; simp [targetMax] at hc
+    · injection hp with hp; subst hp; rfl
+    · cases hp
+
+end Example
+
+open Example in
+/-- a value inside the limit reaches the driver, exactly once, as validated -/
+example : (handleChange pre env node (.full "m" "target") 20).calls = [DriverCall.write "m" "target" 20] := by
+  decide +kernel
+
+open Example in
+/-- … and `change_calls_iff` then yields the full set of conditions (hypotheses satisfiable, conclusion non-trivial) -/
+example : ∃ mod p v, Accepted pre env node (.full "m" "target") 20 mod p v 20 ∧ p.hasWrite = true ∧
+    mod.name = "m" ∧ p.attr = "target" :=
+  (change_calls_iff pre env node wf (.full "m" "target") 20 "m" "target" 20).1 (by decide +kernel)
+
+open Example in
+/-- above the dynamic limit `target_max = 50`: RangeError, nothing happens -/
+example : (handleChange pre env node (.full "m" "target") 60).reply = .error .rangeError ∧
+    (handleChange pre env node (.full "m" "target") 60).calls = [] := by
+  decide +kernel
+
+open Example in
+/-- after `change m:target_max 80` (no driver: the value is stored) the same request is accepted -/
+example : ((run pre node [(env, .change (.full "m" "target_max") 80), (env, .change (.full "m" "target") 60)]).map (·.calls))
+    = [[], [DriverCall.write "m" "target" 60]] := by
+  decide +kernel
+
+open Example in
+/-- the hook objects to 13 with its own class; the constant is read-only; an unknown module is NoSuchModule;
+`do m` is a protocol error; `do m:stop` calls the command once -/
+example : (handleChange pre env node (.full "m" "target") 13).reply = .error (.other "HardwareError") ∧
+    (handleChange pre env node (.full "m" "_k") 1).reply = .error .readOnly ∧
+    (handleChange pre env node (.full "zz" "target") 1).reply = .error .noSuchModule ∧
+    (handleDo pre env node (.bare "m") (none : Option Nat)).reply = .error .protocol ∧
+    (handleDo pre env node (.full "m" "stop") (none : Option Nat)).calls = [DriverCall.cmd "m" "stop" none] := by
+  decide +kernel
+
+open Example in
+example : HistoryOK pre node [(env, .change (.full "m" "target_max") 80), (env, .change (.full "m" "target") 60),
+    (env, .do_ (.full "m" "stop") none), (env, .read (.full "m" "_k") false)] :=
+  (histories pre node wf _).1
 
 end Frappy.Props.C04
